@@ -208,6 +208,7 @@ class History(object):
         self.shadow = {}           # pkey -> {"static": {attr: v}, "rows": {ckey: {attr: v}}}
         self.inst = {}             # (pkey, ckey) -> tracked instance (never stale)
         self.dead_counter_keys = set()
+        self.stale = {}            # (pkey, ckey) -> attrs for which the tracked instance does not mirror the row (blind writes elsewhere)
         self.emptied = {}          # (pkey, ckey, attr) -> value the container had before it was emptied in place and saved
         self.used_keys = set()
         self.trace = []
@@ -325,6 +326,8 @@ class History(object):
             if ckey is None:
                 continue
             for c in sp.reg:
+                if c.attr in self.stale.get((pkey, ckey), ()):
+                    continue
                 mine = norm(getattr(inst, c.attr))
                 want = self.get_shadow(pkey, ckey, c)
                 if sp.counter:
@@ -492,10 +495,20 @@ class History(object):
         cols = sp.static if ckey is None else sp.data
         chosen = rng.sample(cols, rng.randint(1, min(3, len(cols))))
         changes = {}
+        stale = self.stale.get((pkey, ckey), set())
         for c in chosen:
             cur = getattr(inst, c.attr)
-            if c.role == "static" and not same(cur, self.get_shadow(pkey, ckey, c)):
-                continue            # another row's instance or a blind update changed the shared static cell: this instance is stale for it
+            if c.attr in stale or (c.role == "static" and not same(cur, self.get_shadow(pkey, ckey, c))):
+                # the instance does not mirror the stored cell (a blind write elsewhere, or it was built from the key only): what it can
+                # still do by documentation is null the column explicitly (-> DELETE) or overwrite a scalar with a new value
+                if c.container or c.kind == "bool" or rng.random() < 0.6:
+                    changes[c.attr] = None
+                else:
+                    v = gen_value(rng, c)
+                    while same(v, cur):
+                        v = gen_value(rng, c)
+                    changes[c.attr] = v
+                continue
             if sp.counter:
                 changes[c.attr] = (cur or 0) + rng.choice([1, -1, 5, -3, 100, 0])
             else:
@@ -533,6 +546,7 @@ class History(object):
                 target.update()
         for a, v in changes.items():
             self.set_shadow(pkey, ckey, sp.by_attr[a], v)
+            stale.discard(a)
         stale_prev = {}
         for a in changes:
             if (pkey, ckey, a) in self.emptied:
@@ -551,7 +565,7 @@ class History(object):
         rng, sp = self.rng, self.sp
         if sp.counter:
             return None
-        cands = sorted((k for k in self.inst if k[1] is not None and not any(e[:2] == k for e in self.emptied)), key=repr)
+        cands = sorted((k for k in self.inst if k[1] is not None and not self.stale.get(k) and not any(e[:2] == k for e in self.emptied)), key=repr)
         if not cands:
             return None
         pkey, ckey = rng.choice(cands)
@@ -592,7 +606,7 @@ class History(object):
         for c in sp.static:
             if norm(getattr(inst, c.attr)) is not None:
                 self.set_shadow(npkey, nckey, c, _plain_copy(getattr(inst, c.attr)))
-        del self.inst[(pkey, ckey)]
+        self.drop_instance(pkey, ckey)
         self.inst[(npkey, nckey)] = inst
         out = [(npkey, nckey, inst)]
         if npkey != pkey:
@@ -613,6 +627,7 @@ class History(object):
             return []
         for key in [k for k in self.emptied if k[:2] == (pkey, ckey)]:
             del self.emptied[key]
+        self.stale.pop((pkey, ckey), None)
         self.inst[(pkey, ckey)] = inst
         return [(pkey, ckey, inst)]
 
@@ -667,11 +682,69 @@ class History(object):
         q.update(**kw)
         for c, new in effects:
             self.set_shadow(pkey, ckey, c, new)
-        self.inst.pop((pkey, ckey), None)
-        for key in [k for k in self.emptied if k[:2] == (pkey, ckey)]:
-            del self.emptied[key]
+        touched_attrs = set(c.attr for c, _ in effects)
+        if (pkey, ckey) in self.inst and rng.random() < 0.5:
+            # keep the tracked instance: it is now stale for the columns written behind its back
+            self.stale.setdefault((pkey, ckey), set()).update(touched_attrs)
+            for key in [k for k in self.emptied if k[:2] == (pkey, ckey) and k[2] in touched_attrs]:
+                del self.emptied[key]
+        else:
+            self.drop_instance(pkey, ckey)
         self.step_blind[(pkey, ckey)] = info
         return [(pkey, ckey, None)]
+
+    def drop_instance(self, pkey, ckey):
+        self.inst.pop((pkey, ckey), None)
+        self.stale.pop((pkey, ckey), None)
+        for key in [k for k in self.emptied if k[:2] == (pkey, ckey)]:
+            del self.emptied[key]
+
+    def op_blind_instance(self, batch=None, exclude_partitions=()):
+        """an instance built from the primary key only (never loaded), some columns assigned - values or explicit None - through the
+        constructor, attribute assignment or update(**kw), then update() / save(): by documentation the assigned columns are written
+        (None = DELETE of the column), every other column of the row is left alone"""
+        rng, sp = self.rng, self.sp
+        if sp.counter:
+            return None
+        rows = [k for k in self.existing_rows() if k[0] not in exclude_partitions]
+        if rows and rng.random() < 0.85:
+            pkey, ckey = rng.choice(rows)
+        else:
+            pkey, ckey = self.fresh_key(exclude_partitions=exclude_partitions)
+            if pkey is None:
+                return None
+        assigned = {}
+        for c in rng.sample(sp.data, rng.randint(1, min(3, len(sp.data)))):
+            cur = self.get_shadow(pkey, ckey, c)
+            if rng.random() < 0.45 or (c.container == "map" and cur is not None):
+                assigned[c.attr] = None if (not c.container or rng.random() < 0.6) else gen_value(rng, c)[:0] if c.container == "list" else type(gen_value(rng, c))()
+            else:
+                assigned[c.attr] = gen_value(rng, c)
+        kw = self.keys_kw(pkey, ckey)
+        ctor = dict((a, v) for a, v in assigned.items() if rng.random() < 0.25)
+        rest = dict((a, v) for a, v in assigned.items() if a not in ctor)
+        kw.update(ctor)
+        inst = sp.model(**kw)
+        style = rng.random()
+        self.note("blind instance %r ctor=%r then %r via %s" % ((pkey, ckey), ctor, rest, "update(**kw)" if style < 0.4 else "setattr+update()" if style < 0.75 else "setattr+save()"))
+        target = self.writer(inst, batch, is_instance=True, kind="update", row=(pkey, ckey))
+        if style < 0.4:
+            target.update(**rest)
+        else:
+            for a, v in rest.items():
+                setattr(inst, a, v)
+            if style < 0.75:
+                target.update()
+            else:
+                target.save()
+        if style >= 0.75:
+            self.srow(pkey, ckey)
+        for a, v in assigned.items():
+            self.set_shadow(pkey, ckey, sp.by_attr[a], v)
+        self.drop_instance(pkey, ckey)
+        self.inst[(pkey, ckey)] = inst
+        self.stale[(pkey, ckey)] = set(c.attr for c in sp.data if c.attr not in assigned)
+        return [(pkey, ckey, inst)]
 
     def op_delete(self, batch=None, exclude_partitions=()):
         rng, sp = self.rng, self.sp
@@ -701,15 +774,15 @@ class History(object):
             scope = "partition"
         if scope == "row" and sp.ck:
             self.shadow[pkey]["rows"].pop(ckey, None)
-            self.inst.pop((pkey, ckey), None)
+            self.drop_instance(pkey, ckey)
             if sp.counter:
                 self.dead_counter_keys.add((pkey, ckey))
         else:
             for ck in list(self.shadow.get(pkey, {"rows": {}})["rows"]):
-                self.inst.pop((pkey, ck), None)
+                self.drop_instance(pkey, ck)
                 if sp.counter:
                     self.dead_counter_keys.add((pkey, ck))
-            self.inst.pop((pkey, None), None)
+            self.drop_instance(pkey, None)
             self.shadow.pop(pkey, None)
         return [(pkey, ckey, None)]
 
@@ -726,7 +799,7 @@ class History(object):
         self.note("batch begin")
         for _ in range(rng.randint(2, 4)):
             ex = [p for p, _, _ in touched]
-            kind = rng.choice(["create", "modify", "blind", "delete"])
+            kind = rng.choice(["create", "modify", "blind", "blind-instance", "delete"])
             if kind == "create":
                 res = None
                 for _try in range(5):
@@ -738,6 +811,8 @@ class History(object):
                 res = self.op_modify(batch=b, exclude_partitions=ex)
             elif kind == "blind":
                 res = self.op_blind_update(batch=b, exclude_partitions=ex)
+            elif kind == "blind-instance":
+                res = self.op_blind_instance(batch=b, exclude_partitions=ex)
             else:
                 res = self.op_delete(batch=b, exclude_partitions=ex)
             if res:
@@ -767,8 +842,10 @@ class History(object):
             kind, res = "re-key", self.op_rekey()
         elif r < 0.64:
             kind, res = "reload", self.op_reload()
-        elif r < 0.8:
+        elif r < 0.74:
             kind, res = "blind-update", self.op_blind_update()
+        elif r < 0.8:
+            kind, res = "blind-instance", self.op_blind_instance()
         elif r < 0.9:
             kind, res = "delete", self.op_delete()
         else:
@@ -904,6 +981,10 @@ def run(ctx):
                "dropped when a blind update or a delete touches their row; static columns are assigned fresh values only")
     ctx.assume("deleting a static-only instance (null clustering key), db_field renames (C37), LWT results, "
                "conditional batches and USING TIMESTAMP on conditional statements are not generated; batches never touch a partition twice")
+    ctx.assume("blind instances (built from the primary key only) and instances made stale by a blind query-set update write what they assign "
+               "(None / empty collection = DELETE of the column, a value = overwrite) and leave the other columns of the row alone; on a "
+               "column the instance does not mirror only explicit None or a new scalar value is assigned (a collection delta computed from a "
+               "stale value is the caller's error, not the mapper's); a blind instance assigns a non-empty map only where none is stored")
     ctx.assume("re-keying = assigning new clustering / partition key values to a persisted, non-stale instance and save(): the whole instance "
                "must be readable under the new key (always a key unused so far), the row under the old key stays as it is; only save() is "
                "used (update() is a partial write by documentation), not inside batches, not on counter tables")
@@ -1027,4 +1108,4 @@ def run(ctx):
                           "statements_applied:INSERT": 600, "statements_applied:UPDATE": 600, "statements_applied:DELETE": 300,
                           "statements_applied:BATCH": 80, "rows_equal_to_shadow": 2500, "instances_constructed_from_interpreter_rows": 3000,
                           "acting_instances_equal_to_shadow": 1000, "steps:blind-update": 200, "steps:modify": 400, "steps:delete": 100,
-                          "steps:re-key": 60}
+                          "steps:re-key": 60, "steps:blind-instance": 100}
